@@ -4,6 +4,10 @@
 //      every register/flag/shadow field, pc and every data/program memory write must be identical.
 //  (b) the project's own hardware test generator, streamed through a FIFO: every vector executes without
 //      aborting, advances pc by the instruction length and touches data memory only inside the two windows.
+#ifdef C01_LIBFUZZER
+#include <fuzzer/FuzzedDataProvider.h>
+#endif
+
 #include "genstream.h"
 #include "icase.h"
 #include "optable.h"
@@ -60,8 +64,10 @@ bool reference_has_ub(const ICase& c, const optable::Info& info) {
 
 vf::Result check(const ICase& c) {
     if (reference_has_ub(c, optable::info(c.opcode))) {
+#ifndef C01_LIBFUZZER
         vf::klass("excluded: reference has undefined behaviour (see C18)");
         vf::note(0, false);
+#endif
         return vf::Result::pass();
     }
     IResult rr = ref().exec(c);
@@ -70,8 +76,10 @@ vf::Result check(const ICase& c) {
     bool ref_complete = rr.outcome == 0 && rr.oob == 0;
     std::string where = info.form + " op=" + vf::hex(c.opcode) + " x=" + vf::hex(c.expansion);
     if (!ref_complete) {
+#ifndef C01_LIBFUZZER
         vf::klass(rr.oob ? "ref-incomplete: out-of-range access" : (rr.outcome == 1 ? "ref-incomplete: unimplemented" : "ref-incomplete: assert"));
         vf::note(0, false);
+#endif
         return vf::Result::pass();
     }
     if (rs.outcome != 0 || rs.oob != 0) {
@@ -110,6 +118,11 @@ vf::Result check(const ICase& c) {
     if (!rr.writes.empty())
         vf::klass("with memory write");
     uint64_t h = vf::hash_bytes(c.st.v, sizeof c.st.v, c.opcode * 65536ull + c.expansion);
+#ifdef C01_LIBFUZZER
+    (void)h;
+    (void)changed;
+    return vf::Result::pass();
+#endif
     vf::note(h, changed);
     if (changed && vf::ctx().samples.size() < 8 && (h % 5000) == 0)
         vf::sample(where + " | " + flat::encode(c.st).substr(0, 300) + " -> " + flat::diff(c.st, rr.after, 6));
@@ -258,6 +271,48 @@ void run_generator_clause() {
 
 } // namespace
 
+#ifdef C01_LIBFUZZER
+// coverage-guided variant of clause (a): the bytes are decoded structure-aware (table entry, word of that entry, second
+// word, then every state field), the differential oracle is the same function
+extern "C" int LLVMFuzzerTestOneInput(const uint8_t* data, size_t size) {
+    static bool once = [] {
+        if (!std::freopen("/dev/null", "w", stdout)) {
+        }
+        g_entry_done.assign(optable::entry_count(), 0);
+        return true;
+    }();
+    (void)once;
+    FuzzedDataProvider fdp(data, size);
+    ICase c;
+    int entry = fdp.ConsumeIntegralInRange<int>(-1, optable::entry_count() - 1);
+    uint16_t pick = fdp.ConsumeIntegral<uint16_t>();
+    if (entry >= 0) {
+        const auto& ws = optable::words_of_entry(entry);
+        c.opcode = ws[pick % ws.size()];
+    } else
+        c.opcode = pick;
+    c.expansion = fdp.ConsumeIntegral<uint16_t>();
+    c.irq_mask = fdp.ConsumeIntegral<uint8_t>() & 7;
+    for (int f = 0; f < flat::NFIELDS && fdp.remaining_bytes() > 0; ++f) {
+        int bits = flat::descs()[f].bits;
+        uint64_t v = bits <= 8 ? fdp.ConsumeIntegral<uint8_t>() : (bits <= 16 ? fdp.ConsumeIntegral<uint16_t>() : fdp.ConsumeIntegral<uint64_t>());
+        c.st[f] = flat::fit(f, v);
+    }
+    c.st[flat::F_prpage] = 0;
+    c.st[flat::F_pc] = c.st[flat::F_pc] % 0x3FFF0;
+    c.st[flat::F_mod0_unk_const] = 1;
+    c.st[flat::F_bcn] = c.st[flat::F_bcn] % 5;
+    c.st[flat::F_lp] = c.st[flat::F_bcn] != 0;
+    vf::Stream s(vf::hash_bytes(c.st.v, sizeof c.st.v, c.opcode));
+    c.pokes = icase::gen_pokes(s, c.st, c.opcode, c.expansion);
+    vf::Result r = check(c);
+    if (!r.ok) {
+        std::fprintf(stderr, "VERIF-VIOLATION sig=%s\n%s\n%s", r.sig.c_str(), r.why.c_str(), icase::encode(c).c_str());
+        __builtin_trap();
+    }
+    return 0;
+}
+#else
 int main(int argc, char** argv) {
     vf::init(argc, argv, "C01");
     g_entry_done.assign(optable::entry_count(), 0);
@@ -281,3 +336,4 @@ int main(int argc, char** argv) {
     run_generator_clause();
     return vf::finish();
 }
+#endif
